@@ -1311,6 +1311,7 @@ class _TextCensus:
         self.alias: dict[str, str] = {}                    # local name -> the attribute read it was last assigned (x = obj.attr)
         self.lines: list[tuple[str, list]] = []            # (function, written template) in walking order: ('lit', text) / ('fld', source)
         self.cur_fn = ''
+        self._stack: list[str] = []
         for n in self.tree.body:
             if isinstance(n, ast.Assign) and len(n.targets) == 1 and isinstance(n.targets[0], ast.Name):
                 self._maybe_table(n.targets[0].id, n.value)
@@ -1348,12 +1349,14 @@ class _TextCensus:
         if isinstance(e, ast.BoolOp) and isinstance(e.op, ast.Or) and len(e.values) == 2 and isinstance(e.values[1], ast.Constant):
             return self.type_of(e.values[0], env, where)
         if isinstance(e, ast.Name):
-            if env.get(e.id, 'unknown') != 'unknown':
+            if env.get(e.id, 'unknown') not in ('unknown', 'TyStrSeq'):
                 return env[e.id]
             raise TranslateError(f'{self.rel}: {where}: written name `{e.id}` has no known type')
         if isinstance(e, ast.Subscript):
             if isinstance(e.value, ast.Name) and e.value.id in self.const_tables:
                 return 'TyWord'
+            if isinstance(e.value, ast.Name) and env.get(e.value.id) == 'TyStrSeq':
+                return 'TyStr'                 # an element of a collection of strings
             return self.type_of(e.value, env, where)
         if isinstance(e, ast.Call):
             fn = ast.unparse(e.func)
@@ -1466,15 +1469,40 @@ class _TextCensus:
                 continue
             elif ann == 'str':
                 env[a.arg] = (const_params or {}).get(a.arg, 'TyStr')
+            elif re.search(r'\bstr\b', ann):
+                env[a.arg] = 'TyStrSeq'        # a collection of strings: its elements are free text
             elif ann in ('int', 'float', 'bool'):
                 env[a.arg] = 'TyNum'
             else:
                 env[a.arg] = 'TyWord'
         tpl: dict[str, list] = {}
         cond: dict[str, str] = {}
-        self.cur_fn = key
-        self._block(fn.body, env, tpl, cond, key)
+        outer = self.cur_fn
+        if not self._stack:
+            self.cur_fn = key                  # writes of a helper are writes of the function that calls it
+        self._stack.append(key)
+        try:
+            self._block(fn.body, env, tpl, cond, key)
+        finally:
+            self._stack.pop()
+            self.cur_fn = outer if self._stack else self.cur_fn
         return fn
+
+    def _helper_call(self, st: ast.stmt, key: str) -> str | None:
+        """`helper(file, ...)` / `self.helper(file, ...)` as a statement, the helper defined in this module (same class for a method) and
+        given the file object: the key of the function to walk."""
+        if not (isinstance(st, ast.Expr) and isinstance(st.value, ast.Call)):
+            return None
+        c = st.value
+        if not any(isinstance(a, ast.Name) and a.id in self.file_names for a in list(c.args) + [k.value for k in c.keywords]):
+            return None
+        if isinstance(c.func, ast.Name) and c.func.id in self.funcs:
+            return c.func.id
+        if isinstance(c.func, ast.Attribute) and isinstance(c.func.value, ast.Name) and c.func.value.id in ('self', 'cls') and '.' in key:
+            k2 = f"{key.split('.')[0]}.{c.func.attr}"
+            if k2 in self.funcs:
+                return k2
+        return None
 
     def _is_write(self, st: ast.stmt) -> ast.AST | None:
         for nm in self.file_names:
@@ -1509,6 +1537,8 @@ class _TextCensus:
                         anns = self.ann.get(it.attr, set())
                         if any(re.search(r'\bstr\b', x) for x in anns):
                             ty = 'TyStr'
+                    elif isinstance(it, ast.Name) and env.get(it.id) == 'TyStrSeq':
+                        ty = 'TyStr'
                     env[tgt.id] = ty
                 elif isinstance(tgt, ast.Tuple) and isinstance(it, (ast.List, ast.Tuple)) and all(
                         isinstance(el, ast.Tuple) and len(el.elts) == len(tgt.elts) for el in it.elts):
@@ -1575,6 +1605,10 @@ class _TextCensus:
                     env[nm] = 'layout'
                 else:
                     env[nm] = 'unknown'            # fails closed if it is ever written
+                continue
+            k2 = self._helper_call(st, key)
+            if k2 is not None and k2 not in self._stack and len(self._stack) < 4:
+                self.walk(k2)                  # its writes belong to the census of the caller
                 continue
             if isinstance(st, (ast.Expr, ast.Return, ast.Pass, ast.Assert, ast.AnnAssign, ast.AugAssign, ast.Raise)):
                 if any(isinstance(n, ast.Call) and isinstance(n.func, ast.Attribute) and n.func.attr == 'write'
